@@ -475,6 +475,19 @@ func RandValue(r *rand.Rand, k Kind, o Opts, decoyTags []string) *Value {
 				time.Date(1999, 12, 31, 23, 59, 59, 999e6, time.UTC),
 				time.Date(2000, 1, 1, 0, 0, 0, 0, time.UTC),
 				time.Date(2024, 2, 29, 12, 0, 0, 1e6, time.UTC),
+				// calendar rules: leap days of years divisible by 400 and by 4, last days of every month length,
+				// the day after February in a common century year
+				time.Date(2000, 2, 29, 12, 34, 56, 789e6, time.UTC),
+				time.Date(2400, 2, 29, 0, 0, 0, 0, time.UTC),
+				time.Date(1600, 2, 29, 23, 59, 59, 999e6, time.UTC),
+				time.Date(1900, 2, 28, 23, 59, 59, 999e6, time.UTC),
+				time.Date(1900, 3, 1, 0, 0, 0, 0, time.UTC),
+				time.Date(2100, 2, 28, 12, 0, 0, 0, time.UTC),
+				time.Date(2023, 1, 31, 1, 2, 3, 4e6, time.UTC),
+				time.Date(2023, 4, 30, 1, 2, 3, 4e6, time.UTC),
+				time.Date(2023, 12, 31, 23, 59, 59, 0, time.UTC),
+				time.Date(2023, 10, 29, 2, 30, 0, 0, time.UTC),
+				time.Date(2016, 12, 31, 23, 59, 59, 999e6, time.UTC),
 				time.Date(1970, 1, 1, 0, 0, 0, 0, time.UTC),
 				time.Date(2038, 1, 19, 3, 14, 7, 999e6, time.UTC),
 			}
